@@ -239,7 +239,7 @@ def run(ctx):
         rf = ctx.scratch / ("tree_%s.res" % name)
         ctx.vh(["c19", "replay-tree", path, rf], timeout=3600)
         s = ctx.collect(rf)
-        if s["replayed"] != n:
+        if s["replayed"] != n and not s.get("aborted_on_hang"):
             raise CheckerError("replay-tree %s: %d vectors generated, %d replayed" % (name, n, s["replayed"]))
         for k, v in s.items():
             if isinstance(v, (int, float)):
@@ -297,9 +297,14 @@ def run(ctx):
         for k, v in s.items():
             if isinstance(v, (int, float)):
                 tsum[k] = tsum.get(k, 0) + v
+        if s.get("hung"):
+            continue
         shutil.copy(tf, d / "hybrid_trace.ndjson")
         validate_trace(ctx, d, "HybridTrace", "HybridTrace.cfg", "hybrid_trace.ndjson",
                        "stress round %d (lines in output order)" % i, timeout=1800)
+    if tsum.get("hung") and not ctx.mismatches:
+        raise CheckerError("the free-running stress did not finish (calls that never return) but neither the sequential "
+                           "paths nor the forced schedules reproduce a hang: nothing is claimed")
     ctx.evaluations += tsum["records"] + tsum["enabled_probes"]
     ctx.distinct += tsum["records"]
     ctx.extra["stress_records"] = tsum["records"]
@@ -307,6 +312,14 @@ def run(ctx):
     ctx.extra["stress_trace_events_validated"] = tsum["events"]
     phase["stress_validated"] = round(time.time() - t0, 1)
     ctx.extra["phase_end_s"] = phase
+    stages = {"G": 0, "S": 0, "T": 0, "race": 0}
+    for m in ctx.mismatches:
+        k = m["key"]
+        stages["race" if k.startswith("race:") else "S" if k.startswith("sched ") else
+               "G" if k.startswith(("tree ", "Enabled(")) else "T"] += 1
+    ctx.extra["mismatches_by_stage"] = stages
+    if ctx.mismatches:
+        print("C19 mismatches by stage: " + " ".join("%s=%d" % kv for kv in stages.items()))
 
 
 def replay(ctx, path):
